@@ -18,6 +18,7 @@ func runC01(c *Ctx) {
 	r.NotCov = []string{"nil dereference in general", "integer overflow", "panics inside the standard library on arguments not modelled", "memory exhaustion other than through a non-terminating loop", "linter rule loops (range over strings.Split results)"}
 	c01Hang(c)
 	c01Panics(c)
+	c01OptionalDeref(c, c.P)
 }
 
 // c01Hang: R6.0 + R6 for the parser, R6 for the tokenizer.
